@@ -634,6 +634,24 @@ def run_property(modname, tier, seed, nshards=None, collect=False):
     m = merge(results)
     m["corpus_replayed"] = n_corpus
     fails = [r for r in results if r.get("fail")]
+    # 4. coverage-guided campaign over the same strategies and oracles (thorough tier; VERIF_CGF=1 forces, =0 disables)
+    cgf_stats = None
+    want = os.environ.get("VERIF_CGF", "")
+    if not fails and not collect and want != "0" and (tier == "thorough" or want == "1"):
+        budgets = cgf_budgets(mod, tier)
+        if budgets:
+            from . import cgf
+            f, err, info = cgf.campaign(mod, seed, os.environ.get("VERIF_OVERLAY", ""), budgets, workers=nshards)
+            if err:
+                sys.stderr.write("HARNESS ERROR (coverage-guided campaign): %s\n" % err)
+                return 2
+            cgf_stats = info.get("stats", info)
+            if info.get("recs"):
+                m2 = merge(results + info["recs"])
+                m2["corpus_replayed"] = n_corpus
+                m = m2
+            if f:
+                fails = [{"fail": _enc(f)}]
     wall = time.time() - t0
     if collect:
         for k, c in sorted((m.get("collected") or {}).items()):
@@ -644,6 +662,8 @@ def run_property(modname, tier, seed, nshards=None, collect=False):
     extra = {}
     if hasattr(mod, "extra_evidence"):
         extra = mod.extra_evidence(tier, m) or {}
+    if cgf_stats is not None:
+        extra["coverage_guided"] = cgf_stats
     write_evidence(mod, tier, seed, m, wall, len(fails), extra)
     if fails:
         f = _dec(fails[0]["fail"])
@@ -654,6 +674,28 @@ def run_property(modname, tier, seed, nshards=None, collect=False):
     print("OK property=%s tier=%s seed=%d evaluations=%d distinct_nontrivial=%d wall=%.1fs" %
           (prop, tier, seed, m["evaluations"], len(m["nontrivial"]), wall))
     return 0
+
+
+def cgf_budgets(mod, tier):
+    """libFuzzer runs per sub-check for the coverage-guided campaign.  A module may set ``CGF = False`` (not
+    applicable: statistical or out-of-process oracles) or ``CGF = {sub: runs}``; the default is a quarter of the
+    thorough budget of every sub-check that has a strategy, between 4 000 and 60 000 runs (quick: a tenth)."""
+    spec = getattr(mod, "CGF", None)
+    if spec is False:
+        return {}
+    out = {}
+    for sub in mod.subchecks(tier):
+        if sub.strategy is None:
+            continue
+        if isinstance(spec, dict):
+            n = spec.get(sub.name, 0)
+        else:
+            n = min(60000, max(4000, sub.thorough // 4))
+        if tier == "quick":
+            n = n // 10
+        if n > 0:
+            out[sub.name] = n
+    return out
 
 
 def _pad(m):
